@@ -736,12 +736,12 @@ theorem run_of {s : Spec} {args : List Bytes} (ha : s.arity.ok args.length = tru
   cases s.body.run args <;> rfl
 
 def luaSetSpec : Spec := customSpec "SET" (.atLeast 2) (reqAtLeast "SET" 2) CB.luaSet
-def luaExpireSpec : Spec := customSpec "EXPIRE" (.exact 2) (req "EXPIRE" 2) (CB.plain Bodies.luaExpire)
+def luaExpireSpec : Spec := customSpec "EXPIRE" (.exact 2) (req "EXPIRE" 2) CB.luaExpire
 def lmoveSpec : Spec := customSpec "LMOVE" (.exact 4) (req "LMOVE" 4) CB.lmove
 def luaZaddSpec : Spec := customSpec "ZADD" (.atLeast 3) (s2b "ZADD requires key and score-member pairs")
   (CB.zadd { kind := .flt, onErr := some .luaZaddScore })
 def zaddSpec : Spec := customSpec "ZADD" (.atLeast 3) (s2b "ZADD requires key and score-member pairs") (CB.zadd aFlt)
-def luaZrangeSpec : Spec := customSpec "ZRANGE" (.exact 3) (req "ZRANGE" 3) (CB.plain Bodies.luaZrange)
+def luaZrangeSpec : Spec := customSpec "ZRANGE" (.exact 3) (req "ZRANGE" 3) CB.luaZrange
 def zrangeSpec : Spec := customSpec "ZRANGE" (.between 3 4) (s2b "ZRANGE requires 3 or 4 arguments") (CB.zrange (s2b "ZRange"))
 
 theorem find_lua_set : findEntry luaTable (s2b "SET") = some (.cmd luaSetSpec) := by rfl
